@@ -351,7 +351,51 @@ func (c *Ctx) growUnrollOrder(fn *ssa.Function) {
 		}
 	}
 	if len(cps) == 0 {
-		c.R.Unknown(ruleT5, "grow:unrolls-oldest-first", c.P.Pos(fn.Pos()), "grow does not copy the old ring with copy(dst, ring[a:b]) - the unroll form is not recognised by this rule")
+		// element-loop form: new[i] = ring[(head+i) & mask] (or % size) for the induction variable i
+		for _, b := range fn.Blocks {
+			for _, in := range b.Instrs {
+				st, ok := in.(*ssa.Store)
+				if !ok {
+					continue
+				}
+				dia, ok := st.Addr.(*ssa.IndexAddr)
+				if !ok {
+					continue
+				}
+				ld, ok := st.Val.(*ssa.UnOp)
+				if !ok {
+					continue
+				}
+				sia, ok := ld.X.(*ssa.IndexAddr)
+				if !ok {
+					continue
+				}
+				if sp := ir.PathOf(sia.X); len(sp.Fields) == 0 || sp.Fields[len(sp.Fields)-1] != "ring" {
+					continue
+				}
+				i, isPhi := dia.Index.(*ssa.Phi)
+				okIdx := false
+				if bo, ok := sia.Index.(*ssa.BinOp); ok && isPhi {
+					wrapOK := bo.Op.String() == "&" && isFieldLoad(bo.Y, "mask") || bo.Op.String() == "%" && isFieldLoad(bo.Y, "size")
+					if add, ok := bo.X.(*ssa.BinOp); ok && add.Op.String() == "+" && wrapOK {
+						if isFieldLoad(add.X, "head") && add.Y == ssa.Value(i) || isFieldLoad(add.Y, "head") && add.X == ssa.Value(i) {
+							okIdx = true
+						}
+					}
+				}
+				startsAtZero := false
+				if isPhi {
+					for _, e := range i.Edges {
+						if k, ok := e.(*ssa.Const); ok && k.Value != nil && k.Value.ExactString() == "0" {
+							startsAtZero = true
+						}
+					}
+				}
+				c.R.Check(okIdx && startsAtZero, ruleT5, "grow:unrolls-oldest-first", c.P.InstrPos(st), "element loop: new[i] = ring[(head+i) wrapped] for i from 0", "the element loop that unrolls the old ring does not copy ring[(head+i) wrapped] to new[i] starting at i = 0: after growing a wrapped queue, entries are released (and QoS 2 messages handed on) out of order")
+				return
+			}
+		}
+		c.R.Unknown(ruleT5, "grow:unrolls-oldest-first", c.P.Pos(fn.Pos()), "grow does not copy the old ring with copy(dst, ring[a:b]) nor with an element loop new[i] = ring[(head+i) wrapped] - the unroll form is not recognised by this rule")
 		return
 	}
 	isZero := func(v ssa.Value) bool {
